@@ -145,7 +145,7 @@ func c07PEMCases(rng *rand.Rand, der []byte) []c07Input {
 
 func runC07(r *Run) {
 	r.rule = "hostile byte strings offered as a CRL (random bytes, every truncation of valid CRLs, structure-aware mutations: tag swaps, " +
-		"length edits incl. 0x80..0x8f forms, 1..15 length bytes, 2^31 and >=2^63 values, nesting; PEM with broken armour/long lines/missing newline/" +
+		"length edits incl. 0x80..0x8f forms, 1..15 length bytes, 2^31 and >=2^63 values, nesting, inner elements claiming 2^27..2^32 bytes inside honest outer lengths; PEM with broken armour/long lines/missing newline/" +
 		"only armour lines; empty file) through the real ReadCRL under recover + allocation accounting + watchdog, class compared with the Lean model; " +
 		"plus hostile values through ParseOctetString/ReadBigInt/ParseBitString/ReadUtcTime/ParseRDNSequence; non-trivial = the reader got past the outer header"
 	rng := r.Rng
@@ -191,6 +191,15 @@ func runC07(r *Run) {
 			kind += "+2"
 		}
 		inputs = append(inputs, c07Input{"mut-" + kind, m})
+	}
+	nLie := 250
+	if r.Thorough() {
+		nLie = 6000
+	}
+	for i := 0; i < nLie; i++ {
+		if m := c07LengthLie(rng, valids[rng.Intn(len(valids))]); m != nil {
+			inputs = append(inputs, c07Input{"mut-lengthlie", m})
+		}
 	}
 	for i := 0; i < nRand; i++ {
 		b := make([]byte, rng.Intn(200))
